@@ -7,6 +7,7 @@ import (
 	"fmt"
 	"sort"
 	"strings"
+	"sync"
 	"testing"
 	"time"
 
@@ -546,4 +547,206 @@ func TestC12RegressPingDeadlock(t *testing.T) {
 	}
 	col.Label("regression:ping-deadlock")
 	col.Case(true, "regress-ping-deadlock", nil)
+}
+
+// fanHandler keeps the outgoing channel of every live session and emits on request.
+type fanHandler struct {
+	mu    sync.Mutex
+	sends []chan<- mocrelay.ServerMsg
+	ready chan struct{}
+}
+
+func (h *fanHandler) ServeNostr(ctx context.Context, send chan<- mocrelay.ServerMsg, recv <-chan mocrelay.ClientMsg) error {
+	h.mu.Lock()
+	h.sends = append(h.sends, send)
+	h.mu.Unlock()
+	h.ready <- struct{}{}
+	for {
+		select {
+		case <-ctx.Done():
+			return ctx.Err()
+		case _, ok := <-recv:
+			if !ok {
+				return mocrelay.ErrRecvClosed
+			}
+		}
+	}
+}
+
+// TestC12FanOut: the same event is emitted to several sessions at the same moment (what a
+// router does with every published event), each labelled with that session's subscription
+// id. Every client receives one JSON text frame that decodes to its own message.
+func TestC12FanOut(t *testing.T) {
+	col := ev.For("C12").SetRule(c12Rule)
+	rapid.Check(t, func(t *rapid.T) {
+		n := rapid.IntRange(2, 8).Draw(t, "sessions")
+		rounds := rapid.IntRange(10, 60).Draw(t, "rounds")
+		size := rapid.SampledFrom([]int{10, 200, 5000, 120000}).Draw(t, "content_length")
+		desc := map[string]any{"mode": "fan-out of one event to several sessions at once", "sessions": n, "rounds": rounds, "content_length": size}
+		h := &fanHandler{ready: make(chan struct{}, 64)}
+		rig := newWSRig(openOptions(), h)
+		defer rig.close()
+		conns := make([]*websocket.Conn, n)
+		for i := range conns {
+			c, err := dial(rig.url)
+			if err != nil {
+				t.Fatalf("dial: %v", err)
+			}
+			defer c.CloseNow()
+			conns[i] = c
+			select {
+			case <-h.ready:
+			case <-time.After(waitLong):
+				t.Fatalf("session %d did not start", i)
+			}
+		}
+		h.mu.Lock()
+		sends := append([]chan<- mocrelay.ServerMsg{}, h.sends...)
+		h.mu.Unlock()
+		for r := 0; r < rounds; r++ {
+			e := &mocrelay.Event{Kind: 1, CreatedAt: int64(1700000000 + r), Tags: []mocrelay.Tag{{"t", fmt.Sprint("round", r)}}, Content: fmt.Sprint("round ", r, " ") + strings.Repeat("f", size)}
+			gen.Sign(e, gen.Keys[r%gen.NKeys])
+			gate := make(chan struct{})
+			var wg sync.WaitGroup
+			want := make([]string, len(sends))
+			for i, sch := range sends {
+				msg := mocrelay.NewServerEventMsg(fmt.Sprint("sub-", i, "-", r), e)
+				want[i] = expectedServerJSON(msg)
+				wg.Add(1)
+				go func(sch chan<- mocrelay.ServerMsg) {
+					defer wg.Done()
+					<-gate
+					select {
+					case sch <- msg:
+					case <-time.After(waitLong):
+					}
+				}(sch)
+			}
+			close(gate)
+			// which connection belongs to which session is not known: every client must get
+			// exactly one of the expected frames and every expected frame must go to one client
+			got := map[string]int{}
+			for i, c := range conns {
+				ctx, cancel := context.WithTimeout(context.Background(), waitLong)
+				typ, b, err := c.Read(ctx)
+				cancel()
+				if err != nil || typ != websocket.MessageText {
+					hx.Fail(t, ev.Failure{Property: "C12", Signature: "output-lost", Clause: "every message the handler emits reaches the client", Case: desc, Observed: fmt.Sprintf("round %d, client %d: %v", r, i, err)})
+				}
+				cf, err := canonicalFrame(b)
+				if err != nil {
+					hx.Fail(t, ev.Failure{Property: "C12", Signature: "output-not-json", Clause: "every emitted message reaches the client as one JSON text frame", Case: desc, Observed: fmt.Sprintf("round %d, client %d: %q", r, i, firstBytes(b, 200))})
+				}
+				got[cf]++
+			}
+			wg.Wait()
+			for _, w := range want {
+				if got[w] != 1 {
+					var other []string
+					for g := range got {
+						other = append(other, firstBytes([]byte(g), 120))
+					}
+					sort.Strings(other)
+					hx.Fail(t, ev.Failure{Property: "C12", Signature: "output-mismatch", Clause: "every message the handler emits reaches the client as one JSON text frame decoding to the same message (the same event emitted to several sessions at the same moment)",
+						Case: desc, Observed: fmt.Sprintf("round %d: frames received: %s", r, hx.JSON(other)), Expected: firstBytes([]byte(w), 120)})
+				}
+			}
+		}
+		col.Label("mode:fan-out")
+		col.Case(true, hx.JSON(desc), func() any { return desc })
+	})
+}
+
+func firstBytes(b []byte, n int) string {
+	if len(b) > n {
+		return string(b[:n]) + "..."
+	}
+	return string(b)
+}
+
+// TestC12SlowReader: a client on a slow link. The handler emits several messages of many
+// megabytes; the client lets each of them wait for a good part of the send timeout before it
+// reads it (never longer, so no write times out), and sends an invalid frame in between. The
+// rejection is queued behind the handler's messages for longer than one send timeout; it
+// must arrive all the same. If the connection is lost (a loaded machine may stretch a stall
+// past the send timeout) the case decides nothing.
+func TestC12SlowReader(t *testing.T) {
+	col := ev.For("C12").SetRule(c12Rule)
+	rapid.Check(t, func(t *rapid.T) {
+		opt := openOptions()
+		opt.SendTimeout = time.Duration(rapid.SampledFrom([]int{1000, 1400}).Draw(t, "send_timeout_ms")) * time.Millisecond
+		stall := opt.SendTimeout * 7 / 10
+		nmsg := rapid.IntRange(3, 4).Draw(t, "messages")
+		desc := map[string]any{"send_timeout": opt.SendTimeout.String(), "stall_before_each_read": stall.String(), "handler_messages": nmsg, "message_bytes": 8 << 20}
+		h := newRecHandler()
+		rig := newWSRig(opt, h)
+		defer rig.close()
+		c, err := dial(rig.url)
+		if err != nil {
+			t.Fatalf("dial: %v", err)
+		}
+		defer c.CloseNow()
+		var out []mocrelay.ServerMsg
+		for i := 0; i < nmsg; i++ {
+			out = append(out, mocrelay.NewServerNoticeMsg(fmt.Sprint("big", i, " ")+strings.Repeat("b", 8<<20)))
+		}
+		h.setEmit(out)
+		ctx := context.Background()
+		inconclusive := func(why string) {
+			col.Exclude("slow-reader:connection-lost")
+			t.Skipf("decides nothing: %s", why)
+		}
+		if err := c.Write(ctx, websocket.MessageText, []byte(`["CLOSE","`+sentinelPrefix+`slow-emit"]`)); err != nil {
+			inconclusive(err.Error())
+		}
+		time.Sleep(100 * time.Millisecond) // the first message fills the socket buffers; the handler waits with the second
+		if err := c.Write(ctx, websocket.MessageText, []byte(`this is not json`)); err != nil {
+			inconclusive(err.Error())
+		}
+		var small []string
+		read := func() (string, bool) {
+			rctx, cancel := context.WithTimeout(ctx, waitLong)
+			defer cancel()
+			_, b, err := c.Read(rctx)
+			if err != nil {
+				return err.Error(), false
+			}
+			if len(b) < 1000 {
+				small = append(small, string(b))
+			}
+			return "", true
+		}
+		big := 0
+		for big < nmsg {
+			time.Sleep(stall)
+			for {
+				n := len(small)
+				if why, ok := read(); !ok {
+					inconclusive(why)
+				}
+				if len(small) == n {
+					big++
+					break
+				}
+			}
+		}
+		// the emit sentinel's NOTICE ends the output; then a last round trip shows the connection alive
+		for len(small) == 0 || !strings.Contains(small[len(small)-1], "slow-emit") {
+			if why, ok := read(); !ok {
+				inconclusive(why)
+			}
+		}
+		rej := 0
+		for _, s := range small[:len(small)-1] {
+			if ok, _ := isRejection([]byte(s)); ok {
+				rej++
+			}
+		}
+		if rej != 1 {
+			hx.Fail(t, ev.Failure{Property: "C12", Signature: "rejection-count", Clause: "every frame that is not a valid client message is answered with exactly one rejection (a slow reader: the rejection waits behind large handler messages for longer than the send timeout, no single write times out)",
+				Case: desc, Observed: fmt.Sprintf("%d rejections; small frames received: %s", rej, hx.JSON(small)), Expected: "1 rejection"})
+		}
+		col.Label("mode:slow-reader")
+		col.Case(true, hx.JSON(desc), func() any { return desc })
+	})
 }
